@@ -316,7 +316,7 @@ theorem corr_ret (hs : SimpSound s) (hR : R I env code p st f) (hl : f.stack.len
     (by rcases hok with h0 | h0
         · exact Or.inl h0
         · exact Or.inr (by omega))
-  refine Corr.haltData rfl ?_
+  refine Corr.haltData rfl (readMem_rel hR.mem loc size).1 ?_
   rw [(readMem_rel hR.mem loc size).2, hstep]
   rcases h with rfl | rfl <;> simp [haltWith]
 
